@@ -24,7 +24,7 @@ use rustc_hir::def::DefKind;
 use rustc_hir::def_id::{DefId, LOCAL_CRATE};
 use rustc_interface::interface::Compiler;
 use rustc_middle::mir::{self, *};
-use rustc_middle::ty::print::{with_crate_prefix, with_no_trimmed_paths};
+use rustc_middle::ty::print::{with_crate_prefix, with_no_trimmed_paths, with_no_visible_paths};
 use rustc_middle::ty::{self, GenericArgKind, GenericArgsRef, Instance, Ty, TyCtxt, TypingEnv};
 use rustc_span::Span;
 use std::fmt::Write as _;
@@ -111,19 +111,19 @@ impl<'tcx> Cx<'tcx> {
     }
 
     fn path(&self, did: DefId) -> String {
-        let p = with_no_trimmed_paths!(with_crate_prefix!(self.tcx.def_path_str(did)));
+        let p = with_no_visible_paths!(with_no_trimmed_paths!(with_crate_prefix!(self.tcx.def_path_str(did))));
         self.fix(p)
     }
 
     fn path_args(&self, did: DefId, args: GenericArgsRef<'tcx>) -> String {
-        let p = with_no_trimmed_paths!(with_crate_prefix!(self
+        let p = with_no_visible_paths!(with_no_trimmed_paths!(with_crate_prefix!(self
             .tcx
-            .def_path_str_with_args(did, args)));
+            .def_path_str_with_args(did, args))));
         self.fix(p)
     }
 
     fn ty_str(&self, t: Ty<'tcx>) -> String {
-        let p = with_no_trimmed_paths!(with_crate_prefix!(format!("{}", t)));
+        let p = with_no_visible_paths!(with_no_trimmed_paths!(with_crate_prefix!(format!("{}", t))));
         self.fix(p)
     }
 
@@ -418,7 +418,7 @@ impl<'a, 'tcx> BodyCx<'a, 'tcx> {
         for elem in p.projection.iter() {
             let j = match elem {
                 ProjectionElem::Deref => J::O(vec![("k", s("deref"))]),
-                ProjectionElem::Field(f, _) => {
+                ProjectionElem::Field(f, fty) => {
                     let mut name = J::Null;
                     if let ty::Adt(def, _) = pty.ty.kind() {
                         let vi = pty.variant_index.unwrap_or(rustc_abi::FIRST_VARIANT);
@@ -429,7 +429,12 @@ impl<'a, 'tcx> BodyCx<'a, 'tcx> {
                             }
                         }
                     }
-                    J::O(vec![("k", s("field")), ("i", J::I(f.as_usize() as i128)), ("name", name)])
+                    J::O(vec![
+                        ("k", s("field")),
+                        ("i", J::I(f.as_usize() as i128)),
+                        ("name", name),
+                        ("ty", self.cx.ty(fty)),
+                    ])
                 }
                 ProjectionElem::Downcast(sym, vi) => J::O(vec![
                     ("k", s("downcast")),
